@@ -1,5 +1,6 @@
 // Kani harnesses for base/src/ring/gcd.rs: Gcd::gcd and ExtendedGcd::gcd_ext on primitive integers.
-// u8: complete (all pairs, every loop fully unwound, unwinding assertions on); u16: the same in the thorough tier.
+// u8: complete (all pairs, every loop fully unwound, unwinding assertions on).  u16: only a BOUNDED stand-in (operands
+// below 2^10, thorough tier): the complete u16 x u16 harness ran out of memory at unwind 40 and out of time (25 min) at 25.
 //
 // Oracle (C12): g is the greatest common divisor of a and b, stated from the definition:
 //   * g divides a and g divides b (remainders in a wider type),
@@ -49,10 +50,12 @@ fn vk_base_gcd_gcd_ext_u8() {
 
 #[cfg_attr(kani, kani::proof)]
 #[cfg_attr(not(kani), test)]
-#[cfg_attr(kani, kani::unwind(25))] // Euclid on 16-bit operands: at most 23 division steps (46368, 28657)
-fn vk_base_gcd_gcd_ext_u16() {
+#[cfg_attr(kani, kani::unwind(17))] // Euclid on 10-bit operands: at most 14 division steps (987, 610)
+fn vk_base_gcd_gcd_ext_u16_10bit() {
+    // BOUNDED: the complete (u16, u16) domain (unwind 25) does not finish in 25 min; operands below 2^10 only
     let a: u16 = any();
     let b: u16 = any();
+    assume(a < 1024 && b < 1024);
     assume(a != 0 || b != 0);
     let (g, s, t) = a.gcd_ext(b);
     let (a, b, g) = (a as i64, b as i64, g as i64);
@@ -64,10 +67,12 @@ fn vk_base_gcd_gcd_ext_u16() {
 
 #[cfg_attr(kani, kani::proof)]
 #[cfg_attr(not(kani), test)]
-#[cfg_attr(kani, kani::unwind(34))] // binary gcd: each step removes a bit from bitlen(a) + bitlen(b) <= 32
-fn vk_base_gcd_gcd_u16() {
+#[cfg_attr(kani, kani::unwind(22))] // binary gcd: each step removes a bit from bitlen(a) + bitlen(b) <= 20
+fn vk_base_gcd_gcd_u16_10bit() {
+    // BOUNDED: operands below 2^10 only (see above)
     let a: u16 = any();
     let b: u16 = any();
+    assume(a < 1024 && b < 1024);
     assume(a != 0 || b != 0);
     let g = a.gcd(b);
     // certificate: the extended gcd's g with its Bezout identity (checked here, not trusted)
